@@ -47,6 +47,12 @@ def gen_cases(tier, seed):
         r = random.Random(rng.randrange(1 << 30))
         cases.append({'kind': 'server', 'process': False, 'batch': 2, 'wait': 0.001, 'workers': 1, 'nstream': 0, 'pattern': 'burst', 'n': 300,
                       'callers': 1, 'capacity': 256, 'fuzz': True, 'lostwake': True, 'seed': r.randrange(1 << 30)})
+    # two batching workers on different queues in one process (the upstream stage batches too), mostly sparse traffic
+    for i in range(8 if tier == 'quick' else 100):
+        r = random.Random(rng.randrange(1 << 30))
+        cases.append({'kind': 'server', 'process': False, 'batch': r.choice([2, 3, 5]), 'wait': r.choice([0.001, 0.004, None]), 'workers': r.choice([1, 2]), 'nstream': 0,
+                      'ub': r.choice([2, 3, 4]), 'pattern': ['lone', 'trickle', 'lone', 'burst'][i % 4], 'n': r.choice([30, 80]), 'callers': r.choice([1, 2]),
+                      'capacity': 64, 'fuzz': i % 2 == 0, 'seed': r.randrange(1 << 30)})
     return cases
 
 
@@ -138,14 +144,17 @@ def run_server(case):
         stage = ProcessServlet(ST.TagWorker, cpus=[None] * case['workers'], fuzz=(case['seed'] % 1000 + 1), **kw)
     else:
         stage = ThreadServlet(ST.TagWorker, num_threads=case['workers'], **kw)
-    servlet = SequentialServlet(ThreadServlet(ST.TagWorker, tag='U', num_threads=1), stage)
+    ub = case.get('ub', 0)
+    ukw = {'batch_size': ub, 'batch_wait_time': 0.002} if ub else {}
+    # (ub > 0: the upstream stage batches too -- two batching workers on different queues in one process)
+    servlet = SequentialServlet(ThreadServlet(ST.TagWorker, tag='U', num_threads=1, **ukw), stage)
     n = case['n']
     toks = []
     for c in range(case['callers']):
         for s in range(n):
             plan = []
             r = rng.random()
-            if r < 0.08:
+            if r < 0.08 and not ub:
                 plan.append(('U', 'fail', None))
             elif r < 0.16:
                 plan.append(('A', 'reject', None))
@@ -265,7 +274,7 @@ def run_server(case):
             viol.append({'mech': 'batching/not-exactly-one-batch', 'msg': f'accepted request {i} appeared in {seen.get(i, 0)} calls'})
             break
     # every request has its own outcome (reference meaning incl. co-batched failures)
-    tree = ['Seq', [['T', 'U', 1, 0, {}], ['P' if case['process'] else 'T', 'A', case['workers'], b, {}]]]
+    tree = ['Seq', [['T', 'U', 1, ub, {}], ['P' if case['process'] else 'T', 'A', case['workers'], b, {}]]]
     SH.POISONERS.clear()
     for t in toks:
         for tg, a, _ in t[3]:
